@@ -233,7 +233,7 @@ func (e *Env) index(base, idx Val) Val {
 		case *types.Slice:
 			comp := eng.regSlice(u.Elem())
 			h := eng.heapGet(e.cur, comp)
-			return Val{T: sel(sel(h, app("sl_arr", base.T)), "(+ "+app("sl_off", base.T)+" "+idx.T+")"), S: eng.sorts.sortOf(u.Elem()), GT: u.Elem()}
+			return Val{T: sel(sel(h, app("sl_arr", base.T)), app("idx", app("sl_off", base.T), idx.T)), S: eng.sorts.sortOf(u.Elem()), GT: u.Elem()}
 		case *types.Map:
 			comp := mapVal(u)
 			eng.regMap(u)
@@ -355,8 +355,13 @@ func (e *Env) call(x *ast.CallExpr) Val {
 		// forall(int(i), int(j), body)
 		env := e
 		var binders []string
+		var trigs []*ast.CallExpr
 		for _, a := range x.Args[:len(x.Args)-1] {
 			c, ok := a.(*ast.CallExpr)
+			if ok && exprString(c.Fun) == "trig" {
+				trigs = append(trigs, c)
+				continue
+			}
 			if !ok || len(c.Args) != 1 {
 				e.fail("bad binder in %s", exprString(x))
 			}
@@ -367,6 +372,18 @@ func (e *Env) call(x *ast.CallExpr) Val {
 			env = env.bind(vn, Val{T: sn, S: srt})
 		}
 		body := env.trBool(x.Args[len(x.Args)-1])
+		if len(trigs) > 0 {
+			// explicit instantiation patterns: trig(t1, t2) is one multi-pattern
+			body = "(! " + body
+			for _, tc := range trigs {
+				var ts []string
+				for _, ta := range tc.Args {
+					ts = append(ts, env.tr(ta).T)
+				}
+				body += " :pattern (" + strings.Join(ts, " ") + ")"
+			}
+			body += ")"
+		}
 		return Val{T: "(" + fname + " (" + strings.Join(binders, " ") + ") " + body + ")", S: SBool}
 	case "implies":
 		return Val{T: implies(e.trBool(x.Args[0]), e.trBool(x.Args[1])), S: SBool}
